@@ -662,5 +662,486 @@ theorem fc_forward_graph (N D O : Nat) (w b x : Nat) (H : Heap α) (hw : w < H.s
         c7 := f7c.trans (mkCtx_ext x79 [b] (by mem_bound) _).symm
         c8 := f8c.trans (mkCtx_ext x89 [H.size + 6, H.size + 7] (by mem_bound) _).symm }
 
+/-! ## Forward: totality and the unconditional formula -/
+
+/-- **`Forward` always succeeds on valid input**: parameters `W, B` of length `outs`, an input of shape
+    `[batch, features]` (well-formed tensors, so all sizes ≥ 1): the call returns `ok` with a well-formed tensor of
+    shape `[batch, outs]`, and touches no existing tensor. (No error, no panic — for every heap, all sizes, all values.) -/
+theorem fc_forward_total (batch features outs : Nat) (w b x : Nat) (H : Heap α)
+    (hw : w < H.size) (hb : b < H.size) (hx : x < H.size)
+    (ww : (H.val w).WF) (wb : (H.val b).WF) (wx : (H.val x).WF)
+    (dw : (H.val w).dims = [outs]) (db : (H.val b).dims = [outs]) (dx : (H.val x).dims = [batch, features]) :
+    ∃ y H', fcForward ⟨some w, some b⟩ [some x] H = .ok (y, H') ∧ (H'.val y).dims = [batch, outs] ∧ (H'.val y).WF ∧
+      Extends H H' := by
+  obtain ⟨H', h1, h2, _, g⟩ := fc_forward_graph batch features outs w b x H hw hb hx _ _ _
+    (is1_self _ ww outs dw) (is1_self _ wb outs db) (is2_self _ wx batch features dx)
+  exact ⟨H.size + 8, H', h1, g.y.dims, g.y.wf, h2⟩
+
+/-- **The FC formula, unconditionally**: on valid input `Forward` returns `ok` and
+    `y[i][o] = (Σ_d (0 + W[o]·x[i][d])) + B[o]` (folds in execution order, left to right from zero; `sumOver`). -/
+theorem fc_forward_value (batch features outs : Nat) (w b x : Nat) (H : Heap α)
+    (hw : w < H.size) (hb : b < H.size) (hx : x < H.size)
+    (ww : (H.val w).WF) (wb : (H.val b).WF) (wx : (H.val x).WF)
+    (dw : (H.val w).dims = [outs]) (db : (H.val b).dims = [outs]) (dx : (H.val x).dims = [batch, features]) :
+    ∃ y H', fcForward ⟨some w, some b⟩ [some x] H = .ok (y, H') ∧ Extends H H' ∧
+      (H'.val y).dims = [batch, outs] ∧ (H'.val y).WF ∧
+      ∀ i o, i < batch → o < outs →
+        (H'.val y).at? [i, o] = some (Scalar.add
+          (sumOver features (fun d => Scalar.add Scalar.zero (Scalar.mul ((H.val w).el [o]) ((H.val x).el [i, d]))))
+          ((H.val b).el [o])) := by
+  obtain ⟨H', h1, h2, _, g⟩ := fc_forward_graph batch features outs w b x H hw hb hx _ _ _
+    (is1_self _ ww outs dw) (is1_self _ wb outs db) (is2_self _ wx batch features dx)
+  refine ⟨H.size + 8, H', h1, h2, g.y.dims, g.y.wf, ?_⟩
+  intro i o hi ho
+  rw [at?_some_el _ g.y.wf (by rw [g.y.dims]; exact valid2 hi ho), g.y.el i o hi ho]
+  rfl
+
+/-- the same statement obtained by combining totality with the conditional theorem `C16.fc_forward` -/
+theorem fc_forward_value' (N D O : Nat) (w b x : Nat) (H : Heap α) (hw : w < H.size) (hb : b < H.size) (hx : x < H.size)
+    (dw : (H.val w).dims = [O]) (db : (H.val b).dims = [O]) (dx : (H.val x).dims = [N, D])
+    (ww : (H.val w).WF) (wb : (H.val b).WF) (wx : (H.val x).WF)
+    (Wf Bf : Nat → α) (Xf : Nat → Nat → α)
+    (hW : ∀ o, o < O → (H.val w).data[o]? = some (Wf o)) (hB : ∀ o, o < O → (H.val b).data[o]? = some (Bf o))
+    (hX : ∀ i d, i < N → d < D → (H.val x).data[i * D + d]? = some (Xf i d)) :
+    ∃ r H', fcForward ⟨some w, some b⟩ [some x] H = .ok (r, H') ∧ (H'.val r).dims = [N, O] ∧ Extends H H' ∧
+      ∀ i o, i < N → o < O →
+        (H'.val r).at? [i, o] =
+          some (Scalar.add
+            (((List.range D).map (fun d => Scalar.add Scalar.zero (Scalar.mul (Wf o) (Xf i d)))).foldl Scalar.add Scalar.zero)
+            (Bf o)) := by
+  obtain ⟨r, H', h, _, _, _⟩ := fc_forward_total N D O w b x H hw hb hx ww wb wx dw db dx
+  have hN : 0 < N := wx.2 N (by rw [dx]; simp)
+  have hD : 0 < D := wx.2 D (by rw [dx]; simp)
+  have hO : 0 < O := ww.2 O (by rw [dw]; simp)
+  obtain ⟨a1, a2, a3⟩ := C16.fc_forward N D O w b x H H' r hw hb hx hN hD hO dw db dx ww wb wx Wf Bf Xf hW hB hX h
+  exact ⟨r, H', h, a1, a2, a3⟩
+
+/-! ## Backward: the rules along the back edges of the FC graph -/
+
+/-- the `Broadcast` rule between equal shapes returns the gradient unchanged, in either mode -/
+theorem bcastRule_same (bm : BMode) (ds : List Nat) (g : Tensor α) : bcastRule bm ds ds g = .ok g := by
+  unfold bcastRule
+  simp only [Nat.sub_self, bcastLead, bind, Out.bind, List.drop_zero]
+  have : ∀ (j : Nat) (l : List Nat) (red : Tensor α → Int → Out (Tensor α)), bcastExpand red j l l g = .ok g := by
+    intro j l red
+    induction l generalizing j with
+    | nil => rfl
+    | cons d l ih => simp [bcastExpand, ih]
+  exact this _ _ _
+
+/-- `Broadcast` rule, sum mode, `[O] → [N, O]`: the column sums -/
+theorem bcastRule_row {G : Tensor α} {N O : Nat} {Gf : Nat → Nat → α} (hG : Is2 G N O Gf) :
+    ∃ g, bcastRule .sum [O] [N, O] G = .ok g ∧ Is1 g O (fun o => sumOver N (fun n => Gf n o)) := by
+  obtain ⟨hN, hO⟩ := hG.pos
+  obtain ⟨g, h1, w, d, e⟩ := bcastRule_sum_spec [O] [N, O] G hG.wf hG.dims (by simp [validBroadcast, validBroadcastLE])
+  refine ⟨g, h1, w, d, ?_⟩
+  intro o ho
+  rw [e [o] (valid1 ho)]
+  simp [copiesSum, expSum, leadSum]
+  apply sumOver_congr
+  intro n hn
+  exact hG.el n o hn ho
+
+/-- `Broadcast` rule, sum mode, `[O, 1] → [N, O, 1]`: the sums over the new leading dimension -/
+theorem bcastRule_lead3 {G : Tensor α} {N O : Nat} {Gf : Nat → Nat → Nat → α} (hG : Is3 G N O 1 Gf) :
+    ∃ g, bcastRule .sum [O, 1] [N, O, 1] G = .ok g ∧ Is2 g O 1 (fun o k => sumOver N (fun n => Gf n o k)) := by
+  obtain ⟨hN, hO, _⟩ := hG.pos
+  obtain ⟨g, h1, w, d, e⟩ := bcastRule_sum_spec [O, 1] [N, O, 1] G hG.wf hG.dims (by simp [validBroadcast, validBroadcastLE])
+  refine ⟨g, h1, w, d, ?_⟩
+  intro o k ho hk
+  rw [e [o, k] (valid2 ho hk)]
+  simp [copiesSum, expSum, leadSum]
+  apply sumOver_congr
+  intro n hn
+  exact hG.el n o k hn ho hk
+
+/-- composition of backward rules along a path of back edges: the upstream gradient is pulled through the rules in order -/
+def evalPath (bm : BMode) (H : Heap α) : List (Rule α) → Tensor α → Out (Tensor α)
+  | [], g => .ok g
+  | r :: rs, g => (evalRule bm H g r).bind (evalPath bm H rs)
+
+theorem evalPath_cons {bm : BMode} {H : Heap α} {r : Rule α} {rs : List (Rule α)} {g g1 : Tensor α}
+    (h : evalRule bm H g r = .ok g1) : evalPath bm H (r :: rs) g = evalPath bm H rs g1 := by
+  simp only [evalPath, h, Out.bind]
+
+theorem evalPath_append {bm : BMode} {H : Heap α} {p q : List (Rule α)} {g g1 : Tensor α}
+    (h : evalPath bm H p g = .ok g1) : evalPath bm H (p ++ q) g = evalPath bm H q g1 := by
+  induction p generalizing g with
+  | nil => simp only [evalPath] at h; cases h; rfl
+  | cons r rs ih =>
+    simp only [evalPath, List.cons_append] at h ⊢
+    cases hr : evalRule bm H g r with
+    | ok g2 => rw [hr] at h; simp only [Out.bind] at h ⊢; exact ih h
+    | err => rw [hr] at h; simp [Out.bind] at h
+    | panic => rw [hr] at h; simp [Out.bind] at h
+
+/-- a path of back edges in the heap's graph: each rule sits on an edge of the current node, leading to the next -/
+inductive BackPath (H : Heap α) : Nat → List (Rule α) → Nat → Prop
+  | nil (n : Nat) : BackPath H n [] n
+  | cons {n t m : Nat} {r : Rule α} {rs : List (Rule α)} :
+      (⟨t, r⟩ : Edge α) ∈ (H.ctx n).edges → H.tracked t = true → BackPath H t rs m → BackPath H n (r :: rs) m
+
+section paths
+variable (w b x k : Nat)
+
+/-- result → `Broadcast(B)` → `B` -/
+def pathB : List (Rule α) := [.idG, .bcastX b (k + 7)]
+/-- result → `Broadcast(s)` → `s = SumAlong(2)` → the product -/
+def pathMM : List (Rule α) := [.idG, .bcastX (k + 5) (k + 6), .sumAlongX (k + 4) 2]
+/-- … → `Broadcast(W₁)` → `W₁ = W.UnSqueeze(1)` → `W` -/
+def pathW : List (Rule α) := pathMM k ++ [.matmulA (k + 3), .bcastX k (k + 2), .reshapeX w]
+/-- … → `Broadcast(x₁)` → `x₁ = x.UnSqueeze(1)` → `x` -/
+def pathX : List (Rule α) := pathMM k ++ [.matmulB (k + 2), .bcastX (k + 1) (k + 3), .reshapeX x]
+end paths
+
+variable {H : Heap α} {w b x k N D O : Nat} {Wf Bf : Nat → α} {Xf : Nat → Nat → α}
+
+/-- **Bias gradient (sum mode)**: pulling an upstream gradient `G : [N, O]` from the result back to `B` along
+    `Add`'s identity rule and the `Broadcast [O] → [N, O]` rule gives a tensor of `B`'s shape with
+    `dB[o] = Σ_n G[n][o]`. -/
+theorem fc_grad_bias (g : FCGraph H w b x k N D O Wf Bf Xf) {G : Tensor α} {Gf : Nat → Nat → α} (hG : Is2 G N O Gf) :
+    ∃ dB, evalPath .sum H (pathB b k) G = .ok dB ∧ dB.dims = (H.val b).dims ∧
+      Is1 dB O (fun o => sumOver N (fun n => Gf n o)) := by
+  obtain ⟨dB, h1, h2⟩ := bcastRule_row hG
+  refine ⟨dB, ?_, by rw [h2.dims, g.vb.dims], h2⟩
+  have e1 : evalRule .sum H G .idG = .ok G := rfl
+  have e2 : evalRule .sum H G (.bcastX b (k + 7)) = .ok dB := by
+    show bcastRule .sum (H.val b).dims (H.val (k + 7)).dims G = .ok dB
+    rw [g.vb.dims, g.bb.dims]; exact h1
+  unfold pathB
+  rw [evalPath_cons e1, evalPath_cons e2]
+  rfl
+
+/-- from the result back to the product node: the gradient is replicated along the summed (feature) dimension -/
+theorem fc_back_mm (bm : BMode) (g : FCGraph H w b x k N D O Wf Bf Xf) {G : Tensor α} {Gf : Nat → Nat → α} (hG : Is2 G N O Gf) :
+    ∃ G3, evalPath bm H (pathMM k) G = .ok G3 ∧ Is3 G3 N O D (fun n o _ => Gf n o) := by
+  obtain ⟨_, _, hD⟩ := g.mm.pos
+  obtain ⟨u, hu, iu⟩ := unsq2_mat hG
+  obtain ⟨G3, h3, i3⟩ := bcast_last iu D hD
+  refine ⟨G3, ?_, i3⟩
+  have e1 : evalRule bm H G .idG = .ok G := rfl
+  have e2 : evalRule bm H G (.bcastX (k + 5) (k + 6)) = .ok G := by
+    show bcastRule bm (H.val (k + 5)).dims (H.val (k + 6)).dims G = .ok G
+    rw [g.sb]; exact bcastRule_same bm _ G
+  have e3 : evalRule bm H G (.sumAlongX (k + 4) 2) = .ok G3 := by
+    show reducerBroadcasted G (H.val (k + 4)).dims 2 = .ok G3
+    rw [g.mm.dims]
+    unfold reducerBroadcasted
+    simp only [bind, Out.bind]
+    have hu' : vUnSqueeze G ((2 : Nat) : Int) = .ok u := hu
+    rw [hu']
+    exact h3
+  unfold pathMM
+  rw [evalPath_cons e1, evalPath_cons e2, evalPath_cons e3]
+  rfl
+
+/-- **Weight gradient (sum mode)**: pulling `G : [N, O]` from the result back to `W` (through `Add`, `SumAlong(2)`,
+    `MatMul` (first operand), the batch `Broadcast [O,1] → [N,O,1]` and `UnSqueeze(1)`) gives a tensor of `W`'s shape
+    with `dW[o] = Σ_n Σ_d G[n][o]·x[n][d]` (sums in execution order). -/
+theorem fc_grad_weight (g : FCGraph H w b x k N D O Wf Bf Xf) {G : Tensor α} {Gf : Nat → Nat → α} (hG : Is2 G N O Gf) :
+    ∃ dW, evalPath .sum H (pathW w k) G = .ok dW ∧ dW.dims = (H.val w).dims ∧
+      Is1 dW O (fun o => sumOver N (fun n => sumOver D (fun d => Scalar.mul (Gf n o) (Xf n d)))) := by
+  obtain ⟨G3, p1, i3⟩ := fc_back_mm .sum g hG
+  -- MatMul rule, first operand: G3 · x₁ᵀ
+  have ixb : Is3 (H.val (k + 3)) N 1 D (fun n _ d => Xf n d) := by rw [g.xb]; exact g.x1
+  obtain ⟨XT, ht, iT⟩ := transpose3 ixb
+  obtain ⟨g4, hm, i4⟩ := matMul3 i3 iT
+  have e4 : evalRule .sum H G3 (.matmulA (k + 3)) = .ok g4 := by
+    simp only [evalRule, bind, Out.bind, ht, hm]
+  -- Broadcast rule [O,1] → [N,O,1]
+  obtain ⟨g5, h5, i5⟩ := bcastRule_lead3 i4
+  have e5 : evalRule .sum H g4 (.bcastX k (k + 2)) = .ok g5 := by
+    show bcastRule .sum (H.val k).dims (H.val (k + 2)).dims g4 = .ok g5
+    rw [g.w1.dims, g.wb.dims]; exact h5
+  -- UnSqueeze rule: reshape to W's shape
+  have hO := g.vw.pos
+  have e6 : evalRule .sum H g5 (.reshapeX w) = .ok ⟨[O], g5.data⟩ := by
+    show vReshape g5 ((H.val w).dims.map Int.ofNat) = .ok ⟨[O], g5.data⟩
+    rw [g.vw.dims]
+    exact vReshape_data g5 i5.wf [O] (by simp; omega) (by rw [i5.dims]; simp [prod])
+  refine ⟨⟨[O], g5.data⟩, ?_, by rw [g.vw.dims], reshape_col i5⟩
+  unfold pathW
+  rw [evalPath_append p1, evalPath_cons e4, evalPath_cons e5, evalPath_cons e6]
+  rfl
+
+/-- **Input gradient (sum mode)**: pulling `G : [N, O]` from the result back to `x` (through `Add`, `SumAlong(2)`,
+    `MatMul` (second operand), the identity `Broadcast` and `UnSqueeze(1)`) gives a tensor of `x`'s shape with
+    `dx[n][d] = Σ_o W[o]·G[n][o]`. In fact this path contains no expanding `Broadcast`, so the result is the same
+    in `mean` mode (the model of the code as it is): stated for both. -/
+theorem fc_grad_input (bm : BMode) (g : FCGraph H w b x k N D O Wf Bf Xf) {G : Tensor α} {Gf : Nat → Nat → α}
+    (hG : Is2 G N O Gf) :
+    ∃ dX, evalPath bm H (pathX x k) G = .ok dX ∧ dX.dims = (H.val x).dims ∧
+      Is2 dX N D (fun n _ => sumOver O (fun o => Scalar.mul (Wf o) (Gf n o))) := by
+  obtain ⟨G3, p1, i3⟩ := fc_back_mm bm g hG
+  -- MatMul rule, second operand: W_bᵀ · G3
+  obtain ⟨WT, ht, iT⟩ := transpose3 g.wb
+  obtain ⟨g4, hm, i4⟩ := matMul3 iT i3
+  have e4 : evalRule bm H G3 (.matmulB (k + 2)) = .ok g4 := by
+    simp only [evalRule, bind, Out.bind, ht, hm]
+  have e5 : evalRule bm H g4 (.bcastX (k + 1) (k + 3)) = .ok g4 := by
+    show bcastRule bm (H.val (k + 1)).dims (H.val (k + 3)).dims g4 = .ok g4
+    rw [g.xb]; exact bcastRule_same bm _ g4
+  obtain ⟨hN, hD⟩ := g.vx.pos
+  have e6 : evalRule bm H g4 (.reshapeX x) = .ok ⟨[N, D], g4.data⟩ := by
+    show vReshape g4 ((H.val x).dims.map Int.ofNat) = .ok ⟨[N, D], g4.data⟩
+    rw [g.vx.dims]
+    exact vReshape_data g4 i4.wf [N, D] (by simp; omega) (by rw [i4.dims]; simp [prod])
+  refine ⟨⟨[N, D], g4.data⟩, ?_, by rw [g.vx.dims], reshape_mid i4⟩
+  unfold pathX
+  rw [evalPath_append p1, evalPath_cons e4, evalPath_cons e5, evalPath_cons e6]
+  rfl
+
+/-! ## The defect D2 on the bias path: in `mean` mode (the code as it is) the bias gradient is divided by the batch size -/
+
+/-- `AvgAlong(0)` of a matrix: the column means (sum left to right from zero, divided by `float64(N)`) -/
+theorem avg_along0_mat {G : Tensor α} {N O : Nat} {Gf : Nat → Nat → α} (hG : Is2 G N O Gf) :
+    ∃ r, vAlong .avg G 0 = .ok r ∧
+      Is1 r O (fun o => Scalar.div (sumOver N (fun n => Gf n o)) (Scalar.ofNat N)) := by
+  obtain ⟨hN, hO⟩ := hG.pos
+  have eG : G = ⟨[N, O], G.data⟩ := by rw [← hG.dims]
+  have hwf : (⟨[N, O], G.data⟩ : Tensor α).WF := by rw [← eG]; exact hG.wf
+  obtain ⟨data', h1, h2, h3⟩ := reduceDim_spec (⟨[N, O], G.data⟩ : Tensor α) hwf 0 (by simp) Tensor.avg
+  have hsq : squeezeDims 0 [N, O] = [O] := rfl
+  simp only [hsq] at h1 h2 h3
+  have hwr : (⟨[O], data'⟩ : Tensor α).WF := ⟨h2, by simp; omega⟩
+  refine ⟨⟨[O], data'⟩, ?_, hwr, rfl, ?_⟩
+  · have hv : validDimLt 0 G.dims = true := by rw [hG.dims]; simp [validDimLt]
+    rw [eG]
+    simp only [vAlong, vReduceDim, Reducer.fn]
+    rw [if_pos (by rw [eG] at hv; exact hv)]
+    have : (0 : Int).toNat = 0 := rfl
+    rw [this, h1]; rfl
+  · intro o ho
+    have hpos : ∀ d ∈ [O], 0 < d := by simp; omega
+    have hu : Valid [O] [o] := valid1 ho
+    have hj : val [O] [o] < prod [O] := val_lt hu
+    obtain ⟨fib, f1, f2, f3⟩ := h3 (val [O] [o]) hj
+    have hdel : delLE (([N, O] : List Nat).length - 1 - 0) ([N, O] : List Nat).reverse = [O] := rfl
+    simp only [hdel] at f2 f3
+    rw [iter_val hpos hu] at f2 f3
+    have hS : (insLE (([N, O] : List Nat).length - 1 - 0) 0 [o]).reverse = [0, o] := rfl
+    simp only [hS] at f2 f3
+    have hgetD : ([N, O] : List Nat).getD 0 0 = N := rfl
+    rw [hgetD] at f1 f2
+    have hfib : fib = (List.range N).map (fun n => Gf n o) := by
+      apply List.ext_getElem?
+      intro i
+      by_cases hi : i < N
+      · have e := (f2 i hi).1
+        have hset : ([0, o] : List Nat).set 0 i = [i, o] := rfl
+        rw [hset, ← eG, at?_some_el G hG.wf (by rw [hG.dims]; exact valid2 hi ho), hG.el i o hi ho] at e
+        rw [e, List.getElem?_map, List.getElem?_range hi]; rfl
+      · rw [List.getElem?_eq_none (by omega), List.getElem?_eq_none (by simp; omega)]
+    apply el_of_at?
+    have hat := Tensor.at?_reverse (⟨[O], data'⟩ : Tensor α) (st := [o]) (by simpa using hu)
+    have hr : ([o] : List Nat).reverse = [o] := rfl
+    rw [hr] at hat
+    rw [hat]
+    simp only [List.reverse_cons, List.reverse_nil, List.nil_append]
+    rw [f3, hfib]
+    have hwd : prod (sliceDims (windowOf 0 [N, O] [0, o])) = N := by
+      simp [windowOf, unitWin, sliceDims, prod]
+    simp only [Tensor.avg, Tensor.numElems, hwd, Tensor.sum, Tensor.fold, sumOver]
+
+/-- `Broadcast` rule as the code has it (`AvgAlong`), `[O] → [N, O]`: the column **means** -/
+theorem bcastRule_row_mean {G : Tensor α} {N O : Nat} {Gf : Nat → Nat → α} (hG : Is2 G N O Gf) :
+    ∃ g, bcastRule .mean [O] [N, O] G = .ok g ∧
+      Is1 g O (fun o => Scalar.div (sumOver N (fun n => Gf n o)) (Scalar.ofNat N)) := by
+  obtain ⟨g, h1, h2⟩ := avg_along0_mat hG
+  refine ⟨g, ?_, h2⟩
+  unfold bcastRule
+  have hl : ([N, O] : List Nat).length - ([O] : List Nat).length = 1 := rfl
+  simp only [hl, bcastLead, bind, Out.bind, h1, List.drop_succ_cons, List.drop_zero, bcastExpand, ne_eq, not_true_eq_false,
+    if_false]
+
+/-- **Bias gradient as the code computes it (`mean` mode, finding D2)**: `dB[o] = (Σ_n G[n][o]) / N` — the wanted
+    gradient divided by the batch size. -/
+theorem fc_grad_bias_mean (g : FCGraph H w b x k N D O Wf Bf Xf) {G : Tensor α} {Gf : Nat → Nat → α} (hG : Is2 G N O Gf) :
+    ∃ dB, evalPath .mean H (pathB b k) G = .ok dB ∧ dB.dims = (H.val b).dims ∧
+      Is1 dB O (fun o => Scalar.div (sumOver N (fun n => Gf n o)) (Scalar.ofNat N)) := by
+  obtain ⟨dB, h1, h2⟩ := bcastRule_row_mean hG
+  refine ⟨dB, ?_, by rw [h2.dims, g.vb.dims], h2⟩
+  have e1 : evalRule .mean H G .idG = .ok G := rfl
+  have e2 : evalRule .mean H G (.bcastX b (k + 7)) = .ok dB := by
+    show bcastRule .mean (H.val b).dims (H.val (k + 7)).dims G = .ok dB
+    rw [g.vb.dims, g.bb.dims]; exact h1
+  unfold pathB
+  rw [evalPath_cons e1, evalPath_cons e2]
+  rfl
+
+/-! ## the paths are the back edges of the graph -/
+
+theorem mkCtx_clean (H : Heap α) (ops : List Nat) (es : List (Edge α)) (hd : ∀ m ∈ ops, H.dirty m = false) :
+    (mkCtx H ops es).dirty = false := by
+  have h1 : ops.any H.dirty = false := by
+    rw [List.any_eq_false]; intro m hm; rw [hd m hm]; simp
+  unfold mkCtx
+  rw [h1]
+  simp only [Bool.false_eq_true, if_false]
+  split <;> rfl
+
+theorem mkCtx_live (H : Heap α) (ops : List Nat) (es : List (Edge α)) (hd : ∀ m ∈ ops, H.dirty m = false)
+    (ht : ∃ m ∈ ops, H.tracked m = true) : mkCtx H ops es = { tracked := true, edges := es } := by
+  have h1 : ops.any H.dirty = false := by
+    rw [List.any_eq_false]; intro m hm; rw [hd m hm]; simp
+  have h2 : ops.all (fun n => !H.tracked n) = false := by
+    obtain ⟨m, hm, htm⟩ := ht
+    rw [List.all_eq_false]
+    exact ⟨m, hm, by simp [htm]⟩
+  unfold mkCtx
+  rw [h1, h2]
+  simp
+
+theorem ctx_clean {n : Nat} {ops : List Nat} {es : List (Edge α)} (hc : H.ctx n = mkCtx H ops es)
+    (hd : ∀ m ∈ ops, H.dirty m = false) : H.dirty n = false := by
+  unfold Heap.dirty; rw [hc]; exact mkCtx_clean H ops es hd
+
+theorem ctx_live {n : Nat} {ops : List Nat} {es : List (Edge α)} (hc : H.ctx n = mkCtx H ops es)
+    (hd : ∀ m ∈ ops, H.dirty m = false) (ht : ∃ m ∈ ops, H.tracked m = true) :
+    H.tracked n = true ∧ (H.ctx n).edges = es := by
+  unfold Heap.tracked; rw [hc, mkCtx_live H ops es hd ht]; exact ⟨rfl, rfl⟩
+
+/-- **The three paths are paths of back edges of the graph `Forward` built**, from the result to `B`, `W`, `x`
+    respectively, whenever the target is tracked and none of `W`, `B`, `x` is spent (dirty): these are exactly the
+    edges `BackPropagate` follows (it only follows edges to tracked tensors). -/
+theorem fc_backpaths (g : FCGraph H w b x k N D O Wf Bf Xf)
+    (cw : H.dirty w = false) (cb : H.dirty b = false) (cx : H.dirty x = false) :
+    (H.tracked b = true → BackPath H (k + 8) (pathB b k) b) ∧
+    (H.tracked w = true → BackPath H (k + 8) (pathW w k) w) ∧
+    (H.tracked x = true → BackPath H (k + 8) (pathX x k) x) := by
+  -- nothing in the graph is spent
+  have d0 : H.dirty k = false := ctx_clean g.c0 (by simpa using cw)
+  have d1 : H.dirty (k + 1) = false := ctx_clean g.c1 (by simpa using cx)
+  have d2 : H.dirty (k + 2) = false := ctx_clean g.c2 (by simpa using d0)
+  have d3 : H.dirty (k + 3) = false := ctx_clean g.c3 (by simpa using d1)
+  have d4 : H.dirty (k + 4) = false := ctx_clean g.c4 (by simpa using ⟨d2, d3⟩)
+  have d5 : H.dirty (k + 5) = false := ctx_clean g.c5 (by simpa using d4)
+  have d6 : H.dirty (k + 6) = false := ctx_clean g.c6 (by simpa using d5)
+  have d7 : H.dirty (k + 7) = false := ctx_clean g.c7 (by simpa using cb)
+  have c67 : ∀ m ∈ [k + 6, k + 7], H.dirty m = false := by simpa using ⟨d6, d7⟩
+  have c23 : ∀ m ∈ [k + 2, k + 3], H.dirty m = false := by simpa using ⟨d2, d3⟩
+  -- the common part: result → product node, given that the product node is tracked
+  have common : H.tracked (k + 4) = true → ∀ (rs : List (Rule α)) (m : Nat), BackPath H (k + 4) rs m →
+      BackPath H (k + 8) (pathMM k ++ rs) m := by
+    intro t4 rs m hp
+    obtain ⟨t5, e5⟩ := ctx_live g.c5 (by simpa using d4) ⟨k + 4, by simp, t4⟩
+    obtain ⟨t6, e6⟩ := ctx_live g.c6 (by simpa using d5) ⟨k + 5, by simp, t5⟩
+    obtain ⟨_, e8⟩ := ctx_live g.c8 c67 ⟨k + 6, by simp, t6⟩
+    unfold pathMM
+    refine .cons (t := k + 6) (by rw [e8]; simp) t6 ?_
+    refine .cons (t := k + 5) (by rw [e6]; simp) t5 ?_
+    exact .cons (t := k + 4) (by rw [e5]; simp) t4 hp
+  refine ⟨?_, ?_, ?_⟩
+  · intro tb
+    obtain ⟨t7, e7⟩ := ctx_live g.c7 (by simpa using cb) ⟨b, by simp, tb⟩
+    obtain ⟨_, e8⟩ := ctx_live g.c8 c67 ⟨k + 7, by simp, t7⟩
+    unfold pathB
+    refine .cons (t := k + 7) (by rw [e8]; simp) t7 ?_
+    exact .cons (t := b) (by rw [e7]; simp) tb (.nil b)
+  · intro tw
+    obtain ⟨t0, e0⟩ := ctx_live g.c0 (by simpa using cw) ⟨w, by simp, tw⟩
+    obtain ⟨t2, e2⟩ := ctx_live g.c2 (by simpa using d0) ⟨k, by simp, t0⟩
+    obtain ⟨t4, e4⟩ := ctx_live g.c4 c23 ⟨k + 2, by simp, t2⟩
+    unfold pathW
+    apply common t4
+    refine .cons (t := k + 2) (by rw [e4]; simp) t2 ?_
+    refine .cons (t := k) (by rw [e2]; simp) t0 ?_
+    exact .cons (t := w) (by rw [e0]; simp) tw (.nil w)
+  · intro tx
+    obtain ⟨t1, e1⟩ := ctx_live g.c1 (by simpa using cx) ⟨x, by simp, tx⟩
+    obtain ⟨t3, e3⟩ := ctx_live g.c3 (by simpa using d1) ⟨k + 1, by simp, t1⟩
+    obtain ⟨t4, e4⟩ := ctx_live g.c4 c23 ⟨k + 3, by simp, t3⟩
+    unfold pathX
+    apply common t4
+    refine .cons (t := k + 3) (by rw [e4]; simp) t3 ?_
+    refine .cons (t := k + 1) (by rw [e3]; simp) t1 ?_
+    exact .cons (t := x) (by rw [e1]; simp) tx (.nil x)
+
+theorem sumOver_succ (n : Nat) (f : Nat → α) : sumOver (n + 1) f = Scalar.add (sumOver n f) (f n) := by
+  simp only [sumOver, List.range_succ, List.map_append, List.map_cons, List.map_nil, List.foldl_append, List.foldl_cons,
+    List.foldl_nil]
+
+end C16x
+end Qeep
+
+/-! ## Over the reals: the textbook formulas -/
+
+namespace Qeep
+namespace C16x
+open RealScalar
+
+theorem sumOver_real (n : Nat) (f : Nat → ℝ) : sumOver n f = ∑ i ∈ Finset.range n, f i := by
+  induction n with
+  | zero => simp [sumOver]
+  | succ n ih => rw [sumOver_succ, ih, Finset.sum_range_succ]; rfl
+
+/-- **FC over ℝ, forward and backward in one statement.** For every heap and all sizes: parameters `W, B : [O]`, an
+    input `x : [N, D]` (well-formed, so `N, D, O ≥ 1`), and any upstream gradient `G : [N, O]`:
+
+    * `Forward` returns `ok` with `y : [N, O]`, `y[n][o] = W[o]·Σ_d x[n][d] + B[o]`, touching nothing else;
+    * the three rule paths are the back-edge paths of the graph from `y` to `B`, `W`, `x` (towards tracked targets,
+      nothing spent);
+    * with the `Broadcast` rule summing over the copies (`BMode.sum`, what the property demands), pulling `G` back gives
+      `dB[o] = Σ_n G[n][o]`, `dW[o] = Σ_n G[n][o]·Σ_d x[n][d]`, `dx[n][d] = Σ_o G[n][o]·W[o]`, each with the shape of its
+      parameter — the partial derivatives of `Σ_{n,o} G[n][o]·y[n][o]` (see `fc_vjp_is_derivative`). -/
+theorem fc_forward_backward (N D O : Nat) (w b x : Nat) (H : Heap ℝ)
+    (hw : w < H.size) (hb : b < H.size) (hx : x < H.size)
+    (ww : (H.val w).WF) (wb : (H.val b).WF) (wx : (H.val x).WF)
+    (dw : (H.val w).dims = [O]) (db : (H.val b).dims = [O]) (dx : (H.val x).dims = [N, D])
+    (G : Tensor ℝ) (wG : G.WF) (dG : G.dims = [N, O]) :
+    ∃ y H', fcForward ⟨some w, some b⟩ [some x] H = .ok (y, H') ∧ Extends H H' ∧
+      (H'.val y).WF ∧ (H'.val y).dims = [N, O] ∧
+      (∀ n o, n < N → o < O →
+        (H'.val y).el [n, o] = (H.val w).el [o] * (∑ d ∈ Finset.range D, (H.val x).el [n, d]) + (H.val b).el [o]) ∧
+      -- the paths are the graph's back edges
+      (H.dirty w = false → H.dirty b = false → H.dirty x = false →
+        (H.tracked b = true → BackPath H' y (pathB b H.size) b) ∧
+        (H.tracked w = true → BackPath H' y (pathW w H.size) w) ∧
+        (H.tracked x = true → BackPath H' y (pathX x H.size) x)) ∧
+      -- the gradients
+      (∃ dB, evalPath .sum H' (pathB b H.size) G = .ok dB ∧ dB.WF ∧ dB.dims = (H.val b).dims ∧
+        ∀ o, o < O → dB.el [o] = ∑ n ∈ Finset.range N, G.el [n, o]) ∧
+      (∃ dW, evalPath .sum H' (pathW w H.size) G = .ok dW ∧ dW.WF ∧ dW.dims = (H.val w).dims ∧
+        ∀ o, o < O → dW.el [o] = ∑ n ∈ Finset.range N, G.el [n, o] * ∑ d ∈ Finset.range D, (H.val x).el [n, d]) ∧
+      (∃ dX, evalPath .sum H' (pathX x H.size) G = .ok dX ∧ dX.WF ∧ dX.dims = (H.val x).dims ∧
+        ∀ n d, n < N → d < D → dX.el [n, d] = ∑ o ∈ Finset.range O, G.el [n, o] * (H.val w).el [o]) := by
+  obtain ⟨H', h1, h2, _, g⟩ := fc_forward_graph N D O w b x H hw hb hx _ _ _
+    (is1_self _ ww O dw) (is1_self _ wb O db) (is2_self _ wx N D dx)
+  have hG := is2_self G wG N O dG
+  have vw' : H'.val w = H.val w := h2.val hw
+  have vb' : H'.val b = H.val b := h2.val hb
+  have vx' : H'.val x = H.val x := h2.val hx
+  refine ⟨H.size + 8, H', h1, h2, g.y.wf, g.y.dims, ?_, ?_, ?_, ?_, ?_⟩
+  · intro n o hn ho
+    rw [g.y.el n o hn ho, sumOver_real]
+    simp only [term, add_eq, mul_eq, zero_eq, zero_add]
+    rw [Finset.mul_sum]
+  · intro cw cb cx
+    have e := fc_backpaths g (by rw [Heap.dirty, h2.ctx hw]; exact cw) (by rw [Heap.dirty, h2.ctx hb]; exact cb)
+      (by rw [Heap.dirty, h2.ctx hx]; exact cx)
+    simp only [Heap.tracked, h2.ctx hw, h2.ctx hb, h2.ctx hx] at e
+    exact e
+  · obtain ⟨dB, e1, e2, e3⟩ := fc_grad_bias g hG
+    refine ⟨dB, e1, e3.wf, by rw [e2, vb'], ?_⟩
+    intro o ho
+    rw [e3.el o ho, sumOver_real]
+  · obtain ⟨dW, e1, e2, e3⟩ := fc_grad_weight g hG
+    refine ⟨dW, e1, e3.wf, by rw [e2, vw'], ?_⟩
+    intro o ho
+    rw [e3.el o ho, sumOver_real]
+    apply Finset.sum_congr rfl
+    intro n _
+    rw [sumOver_real]
+    simp only [mul_eq]
+    rw [Finset.mul_sum]
+  · obtain ⟨dX, e1, e2, e3⟩ := fc_grad_input .sum g hG
+    refine ⟨dX, e1, e3.wf, by rw [e2, vx'], ?_⟩
+    intro n d hn hd
+    rw [e3.el n d hn hd, sumOver_real]
+    apply Finset.sum_congr rfl
+    intro o _
+    simp only [mul_eq]
+    ring
+
 end C16x
 end Qeep
